@@ -252,6 +252,8 @@ def rule_opc(ctx, R):
     R.floor("file_writer_variants", len(wt)); R.floor("replication_writer_variants", len(gt))
     rb, arms = reader_opcode_arms(ctx)
     R.floor("reader_opcode_arms", len(arms))
+    if not arms:
+        R.broken.append("the reader's opcode dispatch is not recognised (no `byte == CONST` comparison in read_key_value_with_type: a typed opcode match?): the tables cannot be composed"); return
     api = shared.engine_api(ctx.prog)
     for v in VARIANTS:
         a = wt.get(v); g = gt.get(v)
@@ -501,7 +503,9 @@ def rule_shape(ctx, R):
             if any(callee(tt) == W + "write_u64_le" for y, tt in wb.calls() if y in cfg.fwd(wb, [x])):
                 wexp = True
     R.inst(wb.fn, "expiry-prefix", {"writer_0xFC_then_u64": wexp, "reader_0xFC_reads_u64": exp_ok})
-    if not (wexp and exp_ok):
+    if wexp and not exp_ok and not any(st["k"] == "=" and st["r"]["k"] == "bin" and st["r"]["op"] == "Eq" and 0xFC in (byte_const(lb, x, st["r"]["a"]), byte_const(lb, x, st["r"]["b"])) for x, bb in enumerate(lb.bbs) for st in bb["s"]):
+        R.broken.append("the loader's dispatch on the expiry opcode is not recognised (no comparison with 0xFC in load_into)")
+    elif not (wexp and exp_ok):
         R.finding(wb.fn, "expiry-prefix:mismatch", "expiry record (opcode 0xFC + u64 LE ms) not mirrored between writer (%s) and reader (%s)" % (wexp, exp_ok), wb.loc())
 
 
